@@ -528,7 +528,6 @@ class Exec:
             return v & ((1 << rt.bits) - 1)
         if k == 'ptr':
             v = s.load_bytes(addr, 8)
-            if is_sym(v): raise Unsupported('symbolic pointer loaded')
             return v
         if k == 'double':
             v = s.load_bytes(addr, 8)
@@ -543,6 +542,9 @@ class Exec:
             es = s.tc.size(rt.el)
             return [s.load(addr + i * es, rt.el) for i in range(rt.n)]
         if k == 'vector':
+            if s.tc.resolve(rt.el).k == 'int' and s.tc.resolve(rt.el).bits == 1:
+                v = s.load_bytes(addr, (rt.n + 7) // 8)
+                return [(v >> i) & 1 for i in range(rt.n)]
             es = s.tc.size(rt.el)
             return [s.load(addr + i * es, rt.el) for i in range(rt.n)]
         if k == 'struct':
@@ -606,6 +608,12 @@ class Exec:
             else: s.store_bytes(addr, 8, f64_bits(v))
         elif k == 'float':
             s.store_bytes(addr, 4, f32_bits(v))
+        elif k == 'vector' and s.tc.resolve(rt.el).k == 'int' and s.tc.resolve(rt.el).bits == 1:
+            r = 0
+            for i, b in enumerate(v):
+                if is_sym(b): raise Unsupported('symbolic i1 vector store')
+                r |= (b & 1) << i
+            s.store_bytes(addr, (rt.n + 7) // 8, r)
         elif k in ('array', 'vector'):
             es = s.tc.size(rt.el)
             for i, e in enumerate(v): s.store(addr + i * es, rt.el, e)
@@ -705,6 +713,12 @@ class Exec:
         raise NotImplementedError('cast ' + op)
 
     def bitcast_agg(s, rf, v, rt):
+        if rf.k == 'vector' and s.tc.resolve(rf.el).k == 'int' and s.tc.resolve(rf.el).bits == 1 and rt.k == 'int':
+            r = 0
+            for i, b in enumerate(v):
+                if is_sym(b): raise Unsupported('symbolic i1 vector bitcast')
+                r |= (b & 1) << i
+            return r
         # via memory
         o = s.mem.alloc(64, 16, 'tmp')
         s.store(o.base, rf, v)
@@ -924,6 +938,8 @@ class Exec:
         rt = p.type()
         if rt.k == 'fn': rt = rt.el
         k, v = p.peek()
+        if k == 'word' and v == 'asm':
+            return ('nop',)
         if k == 'gid':
             p.next(); callee = ('g', v)
         elif k == 'lid':
@@ -1326,6 +1342,15 @@ class Exec:
             x, y = a
             if base == 'scmp': x, y = sx(x, ob), sx(y, ob)
             r = (x > y) - (x < y)
+            return r & ((1 << bits) - 1)
+        if n.startswith('fptoui.sat') or n.startswith('fptosi.sat'):
+            x = a[0]
+            if is_sym(x): raise Unsupported('symbolic fpto*i.sat')
+            signed = n.startswith('fptosi')
+            lo, hi = (-(1 << (bits - 1)), (1 << (bits - 1)) - 1) if signed else (0, (1 << bits) - 1)
+            if x != x: return 0
+            if math.isinf(x): r = hi if x > 0 else lo
+            else: r = min(max(int(x), lo), hi)
             return r & ((1 << bits) - 1)
         if base == 'fabs':
             return z3.fpAbs(a[0]) if is_sym(a[0]) else abs(a[0])
